@@ -1,7 +1,96 @@
 import Mutagen.Driver.Util
+import Mutagen.Driver.Tree
+import Mutagen.Driver.Cycle
+import Mutagen.Model.Executability
+import Mutagen.Model.SyncCycle
 namespace Mutagen.Driver.C18
+open Mutagen.Driver Mutagen.Driver.Tree Mutagen.Driver.Cycle Mutagen.Model
 
-/-- Model-side handler for one line of the C18 correspondence stream. -/
-def handle (_line : String) : String := "unimplemented"
+/-!
+Lines (trees in the encoding of `Driver/Tree.lean`):
+
+* `p <A> <S> <T>` → `PropagateExecutability(A, S, T)`.
+* `c <mode> <portable 0|1> <αpreserves> <βpreserves> <A> <alpha> <beta>` → the
+  decision part of one cycle on the scanned contents, computed from the
+  exported pieces: `<α'> <β'> <outcome> <plan> anc=<A'> alpha=<α''> beta=<β''>`
+  (α', β' after propagation; α'', β'' after applying the plan exactly).
+* `s <mode> <portable> <αpreserves> <βpreserves> <A> <alpha> <beta>` → one cycle
+  of a real session over scripted endpoints (see `Driver/Cycle.lean`).
+* `h <mode> <N is alpha 0|1> <A> <P> <N> <op,op,…>` → a real session over a
+  preserving endpoint P and a non-preserving endpoint N, one cycle after each
+  edit; `eN=<path>=<hex>` / `eP=<path>=<hex>` replace a file's content,
+  `xP=<path>` flips a file's executable bit on P. Answer: one
+  `<outcome>:<P tree>:<N tree>` per cycle, joined by ` | `; the history stops
+  at the first cycle that does not complete.
+-/
+
+/-- Replace the scalar fields of the file at `path` (no-op unless a file). -/
+def editFile (tree : Option Entry) (path : Path) (f : Props → Props) : Option Entry :=
+  match getPath tree path with
+  | some (.mk p cs) =>
+    if p.kind == .file then
+      match apply tree [{ path := path, old := none, new := some (.mk (f p) cs) }] with
+      | .ok t => t
+      | .error _ => tree
+    else tree
+  | none => tree
+
+inductive Op
+  | editN (path : Path) (d : List UInt8)
+  | editP (path : Path) (d : List UInt8)
+  | chmodP (path : Path)
+
+def parseOp (s : String) : Option Op :=
+  match s.splitOn "=" with
+  | ["eN", p, d] => do pure (.editN (← parsePath p) (← decHex d))
+  | ["eP", p, d] => do pure (.editP (← parsePath p) (← decHex d))
+  | ["xP", p] => do pure (.chmodP (← parsePath p))
+  | _ => none
+
+def history (mode : Mode) (nAlpha : Bool) : Nat → Option Entry → Option Entry → Option Entry → List Op → List String
+  | _, _, _, _, [] => []
+  | fuel, a, p, n, op :: ops =>
+    let (p, n) := match op with
+      | .editN path d => (p, editFile n path fun q => { q with digest := d })
+      | .editP path d => (editFile p path fun q => { q with digest := d }, n)
+      | .chmodP path => (editFile p path fun q => { q with executable := !q.executable }, n)
+    let sp : Scan := { content := p, preserves := true }
+    let sn : Scan := { content := n, preserves := false }
+    let (α, β) := if nAlpha then (sn, sp) else (sp, sn)
+    let (_, r, α', β') := sessionCycle mode true a α β
+    let (p', n') := if nAlpha then (β', α') else (α', β')
+    let item := showOutcome r.outcome ++ ":" ++ showOEntry p' ++ ":" ++ showOEntry n'
+    match r.outcome, fuel with
+    | .completed, fuel + 1 => item :: history mode nAlpha fuel r.ancestor p' n' ops
+    | _, _ => [item]
+
+def run : List String → Option String
+  | ["p", a, s, t] => do
+    pure (showOEntry (propagateExecutability (← parseOEntry a) (← parseOEntry s) (← parseOEntry t)))
+  | ["c", m, perm, pa, pb, a, al, be] => do
+    let mode ← parseMode m
+    let α : Scan := { content := ← parseOEntry al, preserves := ← parseFlag pa }
+    let β : Scan := { content := ← parseOEntry be, preserves := ← parseFlag pb }
+    let a ← parseOEntry a
+    let eps := worldEndpoints α.content β.content false false
+    let r := cycle mode (← parseFlag perm) eps a α β
+    let (α', β') := worldAfter α.content β.content false false r.events
+    pure (showOEntry r.alphaContent ++ " " ++ showOEntry r.betaContent ++ " " ++ showOutcome r.outcome ++ " " ++
+      showPlan r.plan ++ " anc=" ++ showOEntry r.ancestor ++ " alpha=" ++ showOEntry α' ++ " beta=" ++ showOEntry β')
+  | ["s", m, perm, pa, pb, a, al, be] => do
+    let mode ← parseMode m
+    let α : Scan := { content := ← parseOEntry al, preserves := ← parseFlag pa }
+    let β : Scan := { content := ← parseOEntry be, preserves := ← parseFlag pb }
+    pure (sessionCycle mode (← parseFlag perm) (← parseOEntry a) α β).1
+  | ["h", m, na, a, p, n, ops] => do
+    let mode ← parseMode m
+    let ops ← (listField ops).mapM parseOp
+    pure (" | ".intercalate (history mode (← parseFlag na) ops.length (← parseOEntry a) (← parseOEntry p) (← parseOEntry n) ops))
+  | _ => none
+
+def handle (line : String) : String :=
+  match run (fields line) with
+  | some out => out
+  | none => "bad-op"
 
 end Mutagen.Driver.C18
